@@ -3244,11 +3244,14 @@ template <class S>
 IMATH_HOSTDEVICE IMATH_CONSTEXPR14 inline const Matrix33<T>&
                  Matrix33<T>::setShear (const S& xy) IMATH_NOEXCEPT
 {
+    // xy may refer to an element of this matrix: read it before writing
+    const S s = xy;
+
     x[0][0] = 1;
     x[0][1] = 0;
     x[0][2] = 0;
 
-    x[1][0] = xy;
+    x[1][0] = s;
     x[1][1] = 1;
     x[1][2] = 0;
 
@@ -3287,12 +3290,15 @@ IMATH_HOSTDEVICE IMATH_CONSTEXPR14 inline const Matrix33<T>&
     //
     // In this case, we don't need a temp. copy of the matrix
     // because we never use a value on the RHS after we've
-    // changed it on the LHS.
+    // changed it on the LHS (xy itself may refer to an element
+    // of row 1, so it is read first).
     //
 
-    x[1][0] += xy * x[0][0];
-    x[1][1] += xy * x[0][1];
-    x[1][2] += xy * x[0][2];
+    const S s = xy;
+
+    x[1][0] += s * x[0][0];
+    x[1][1] += s * x[0][1];
+    x[1][2] += s * x[0][2];
 
     return *this;
 }
